@@ -139,3 +139,48 @@ Definition walk_tbls_agree (ignore : list string) (kinds : list string) (a b : w
     | Some pa, Some pb => all2 wpart_same (filter (fun w => negb (mem_string (wfield w) ignore)) pa) pb
     | _, _ => false
     end) kinds.
+
+(* ===== shared expression language of the generated code =============================== *)
+
+Definition path := list string.
+
+Inductive cond :=
+| CTrue
+| CNotNil (p : path) | CIsNil (p : path)
+| CBool (p : path) | CNotBool (p : path)
+| CTokEq (p : path) (s : string) | CTokNe (p : path) (s : string)
+| CIntEq (p : path) (z : Z)
+| CPosValid (p : path)
+| CUnknown (src : string).
+
+Inductive tokx :=
+| TConst (name str : string)               (* token.NAME, with its String() *)
+| TField (p : path)                        (* n.Tok *)
+| TChoice (c : cond) (a b : tokx)          (* func() token.Token { if c { return a }; return b }() *)
+| TUnknown (src : string).
+
+(* ===== Restorer (restorer-generated.go), statement by statement ====================== *)
+
+Inductive rstmt :=
+| RMapAst | RMapDst                        (* r.Ast.Nodes[n] = out ; r.Dst.Nodes[out] = n *)
+| RMapAstAt (p : path) | RMapDstAt (p : path)
+| RSpace (after : bool)                    (* r.applySpace(n, "Before"/"After", ...) *)
+| RDec (name : string) (owner : path) (point : string) (isend : bool)
+                                           (* r.applyDecorations(out, name, n.owner.Decs.point, isend) *)
+| RSetPos (o : path) | RSetNoPos (o : path)
+| RAdvTok (t : tokx) | RAdvStr (p : path) | RAdvLen (p : path)
+| RLiteral (p : path)
+| RCopy (o p : path)
+| RInit (o : path) (ty : string)
+| RNode (p o : path) (pn pf pt : string)   (* if n.P != nil { out.O = r.restoreNode(n.P, pn, pf, pt, ..) } *)
+| RList (p o : path) (pn pf pt : string)
+| RMapNodes (p o : path) (pn pf pt : string)
+| RMapObjs (p o : path)
+| RMakeMap (o : path)
+| RScope (p o : path) | RObject (p o : path)
+| RIf (c : cond) (th el : list rstmt)
+| RIdentHook
+| RUnknown (src : string).
+
+(* ===== dstutil.Decorations listing (dstutil/decorations-generated.go) ================= *)
+Inductive ppart := PBefore | PAfter | PPoint (name field : string) | PUnknown (src : string).
